@@ -17,18 +17,25 @@ SHRINK = False          # a case is (scenario, schedule); schedules are not line
 CASE_TIMEOUT = 5.0
 MODEL_CASE_TIMEOUT = 5.0
 RULE = ("scenarios (all 16 combinations of SINGLE_WRITER / SINGLE_READER / READ_BUSY_LOOP / MSG_READ_ONCE incl. the "
-        "rejected one, optionally with the deprecated 0x04 bit; requested capacity 2..8 (rounded 2/4/8); 1..3 writers x 1..3 readers "
-        "(1 where the flag promises a single one); 1..4 messages per writer; in half of the scenarios some or all messages "
-        "carry adversarial pointer values (NULL, (void*)-1, small integers = ring positions/cursor values, addresses of the "
-        "ring's blocks / the ring, repeated values) instead of the address of their own payload object; reader indices started at 2^32-3 (or 0, or "
-        "2^32-3-k*cap) so that the 32-bit index wraps; harness throttle on) x seeded random schedules (context-switch "
-        "density 20/50/80 %; for the futex-sleeping reader modes two thirds of the schedules also interrupt would-block "
-        "futex waits with EINTR at 15/30/60 % and wake them spuriously at 0/20 %) run on the real code under the "
-        "deterministic scheduler; every trace replayed on the "
-        "extracted model; plus a negative stream with the throttle off (precondition violated; only model/implementation "
-        "agreement is checked unless the trace happens to satisfy the precondition); non-trivial = the trace contains a "
-        "contended lock acquisition, a reader that found the ring empty (futex wait / spin) or a throttled writer; "
-        "distinct = distinct trace text")
+        "rejected one, optionally with the deprecated 0x04 bit; capacity 1, 2, 4, 8, 16, 32, 64 (requested values that round "
+        "to them); 1..3 writers x 1..3 readers (1 where the flag promises a single one); 1..4 messages per writer, for the "
+        "rings of 16..64 blocks up to 40 per writer so that the ring wraps; 0..capacity-1 messages in the ring when the "
+        "threads start; read-all readers start at ANY valid index: at the cursor, LATE at an older still valid message, "
+        "at different residues, near / across the 32-bit wrap of the index (2^32-k), and may STOP EARLY (quota smaller "
+        "than the number of messages, also 0); read-once readers may stop up to capacity-1 messages before the end; in half "
+        "of the scenarios some or all messages carry adversarial pointer values (NULL, (void*)-1, any small integer 1..255 "
+        "incl. ring positions / cursor values / capacity / 0xFF, addresses of the ring's blocks / the ring, the same value "
+        "several times or for every message) instead of the address of their own payload object; harness throttle on) x "
+        "seeded random schedules (context-switch density 20/50/80 %; for the futex-sleeping reader modes two thirds of the "
+        "schedules also interrupt would-block futex waits with EINTR at 15/30/60 % and wake them spuriously at 0/20 %) run "
+        "on the real code under the deterministic scheduler; every trace replayed on the extracted model; plus a negative "
+        "stream with the throttle off (precondition violated; only model/implementation agreement is checked unless the "
+        "trace happens to satisfy the precondition); plus IDLE scenarios under the scheduler's virtual clock (time(), "
+        "clock_gettime(), gettimeofday(), nanosleep() of the scheduled threads read virtual time): the writer stays quiet "
+        "for 2.5 .. 60 virtual seconds and then writes fewer messages than there are caught-up readers, in every reader "
+        "mode; plus the type probe and the capacity-rounding table (1100 requests up to 2^20 and refused ones); non-trivial "
+        "= the trace contains a contended lock acquisition, a reader that found the ring empty (futex wait / spin) or a "
+        "throttled writer; distinct = distinct trace text")
 TRUSTED_BASE = [
     "modelled, not verified: sequentially consistent interleaving of atomic operations plus release/acquire views for "
     "the plain cells (slots, payloads, read_cursor) as stand-in for C11 (DRF-SC assumed, not proved); futex = atomic "
@@ -36,32 +43,58 @@ TRUSTED_BASE = [
     "or 0 without a wake-up (schedule choices, also steps of the model), and pthread mutex = exclusive ownership with "
     "acquire/release, as interposed by harness/vsched; real weak-memory reorderings cannot be exhibited on x86 under a "
     "serialised run",
+    "the scheduler's VIRTUAL CLOCK (harness/vsched/vsched.c, vs_clock.c: time advances per scheduling step, jumps when "
+    "every runnable thread spins or nobody is runnable; a quiet period is a schedule in which the thread is not chosen, "
+    "invisible to the program and to the model) stands for wall-clock time; code that looks at the clock only every N "
+    "spins is reached only by the long idle scenarios of search() (run when an obligation or the correspondence broke)",
     "memory orders of the 7 sites (tas, clear, cursor store in write_lock / write_single, cursor load in read_wait / "
-    "read_busy_loop / read_once) and the flag -> mode table of muggle_ring_buffer_get_mode are re-extracted from the "
-    "executed code into coq/gen/Params_C02.v on every run; the theorems' side conditions are discharged against them",
-    "the harness client (c02_driver.c: tickets, payload store before the write, throttle, per-reader counters) is "
-    "part of the model (plain segments); capacity rounding (muggle_next_pow_of_2) is C20's subject, here only run",
+    "read_busy_loop / read_once), the flag -> mode table of muggle_ring_buffer_get_mode, the capacity-rounding table of "
+    "muggle_ring_buffer_init, the sizeof / signedness of the fields and the public prototypes are re-extracted from the "
+    "executed / compiled code into coq/gen/Params_C02.v on every run; the theorems' side conditions are discharged "
+    "against them.  The macro bodies of muggle/c/base/atomic.h are NOT compiled into the driver (vs_hooks.h redefines "
+    "every muggle_atomic_* with the builtin and the call-site order): a tie for them is C04's subject",
+    "second tie (translator kind): lib/props/c02_slice.py slices the integer content of the write / wake / read functions "
+    "and of the two entry points out of the clang JSON AST of the C text of this run (one loop iteration executed "
+    "symbolically, lock / unlock calls dropped, file-local helpers inlined) into Gallina (C integer semantics of "
+    "lib/leaftrans.py); obligations rb_code_*_matches prove them equal to reference functions for every capacity 2^k "
+    "(k <= 30), every position and every 32-bit index by a shape-independent decision tactic, and C02/ProofsTie.v proves "
+    "that the model's step function computes the same references; trusted: clang 14 AST, the slicer.  Only the futex "
+    "(MUGGLE_C_HAVE_SYNC_OBJ) configuration of ring_buffer.c is compiled, sliced and modelled",
+    "AST scans (lib/props/c02_scan.py, clang JSON; taint analysis / width scan, not proofs): no payload value is used "
+    "other than copied / returned / discarded; no integer variable or conversion narrower than 32 bits",
+    "the harness client (c02_driver.c: tickets, payload store before the write, throttle over the readers that still "
+    "read, per-reader start positions and counters) is part of the model (plain segments)",
 ]
 ASSUMPTIONS = [
-    "documented usage: writers never get a full capacity ahead of a waiting reader (the harness throttle enforces "
-    "writes begun < next reader index + capacity; the theorems carry it as the ghost monitor s_lapped = false)",
+    "documented usage: writers never get a full capacity ahead of a reader that is still reading (the harness throttle "
+    "enforces writes begun < next index of every such reader + capacity; the theorems carry it as the ghost monitor "
+    "s_lapped = false)",
+    "a reader's first index names a ring position that has been written (or the cursor position): wf_cfg's "
+    "0 <= rd_start; an index whose position was never written reads an uninitialised block and is outside the property",
     "SINGLE_WRITER / SINGLE_READER flags are honoured by the user (one writer / one reader thread)",
     "read-once readers all use read-once mode",
 ]
 EVIDENCE_NOTES = [
     "message values: the driver sends adversarial pointer values as messages in every reader mode (NULL, (void*)-1, "
-    "small integers equal to 1 / ring positions / cursor values / capacity, addresses of the ring's own blocks and of "
-    "the ring object, the same value several times; counts per kind under input_distribution value-*); the monitor "
-    "judges by VALUE: read #k of a reader returns exactly the value of the k-th published message and never blocks "
-    "once it exists (scheduler DEADLOCK / LIVELOCK = violation with the schedule as replay).  Justification for "
-    "sampling values: ring_delivery_value_independent / ring_trace_value_independent (the model is parametric in the "
-    "values) plus the additional obligation rb_code_never_compares_payload, which is a heuristic SOURCE SCAN of "
-    "ring_buffer.c run in gen_params on every check (comparisons whose operand is x->data, a local assigned from it or "
-    "the data argument); it is a textual scan, not a proof about the C code",
+    "any small integer 1..255, addresses of the ring's own blocks and of the ring object, the same value several times "
+    "or for all messages; counts per kind under input_distribution value-*); the monitor judges by VALUE: read #k of a "
+    "reader returns exactly the value of the message at its logical index and never blocks once it exists (scheduler "
+    "DEADLOCK / LIVELOCK = violation with the schedule as replay).  Justification for sampling values: "
+    "ring_delivery_value_independent / ring_trace_value_independent (the model is parametric in the values) plus the "
+    "additional obligation rb_code_never_compares_payload, an AST-based taint scan of ring_buffer.c run in gen_params on "
+    "every check (lib/props/c02_scan.py): every use of a payload value - blocks[i].data, what is stored into it, every "
+    "variable / parameter / return value it is copied through, also through the function pointer tables - other than "
+    "copying, returning or discarding it is counted (truthiness tests, ?:, switch, comparisons, arithmetic, casts to "
+    "integers, dereferences, calls of functions outside the file such as memcmp); it is a scan, not a proof about the C code",
+    "blocking until the message exists: safety half in rb_read_returns_ith; the monitor clause 'no reader is blocked at "
+    "the end of a scenario whose message exists' is checked on every trace, including the idle scenarios (quiet writer "
+    "under the virtual clock, fewer messages than readers); liveness under fairness is C03's subject",
     "all listed theorems are proved in full (no _partial left): rb_payload_visible covers every writer/reader mode "
     "including read-once (read_cursor under read_mutex); rb_once_positions states that a reader's positions strictly "
     "increase and that every taken position is returned or pending with exactly one reader; rb_throttle_no_lap "
-    "proves that the model of the harness throttle implies the no-lapping precondition (s_lapped never fires)",
+    "proves that the model of the harness throttle implies the no-lapping precondition (s_lapped never fires); "
+    "rb_start_position / wf_cfg admit every first index whose ring position has been written (late joiners, different "
+    "residues, any quota); rb_capacity_rounding states the rounding for every 32-bit request",
     "the model additionally evaluates its ghost monitors on every accepted trace (F MODEL line = divergence if the "
     "precondition monitor fires under the throttle or a plain read is uncovered under SC orders), and the Python "
     "monitor re-checks the throttle independently on the trace",
@@ -106,44 +139,42 @@ def val_kind(code):
     return "other"
 
 
+SCAN_CFLAGS = ["-std=gnu11", "-DNDEBUG", "-DMUGGLEC_VERIF", "-DMUGGLE_C_EXPORTS"]
+
+
 def scan_payload_comparisons(repo=None):
-    """Cheap source scan (an ADDITIONAL obligation, not a proof): the ring must treat message values as opaque.
-    Returns the lines of ring_buffer.c in which a payload value (an expression ending in .data / ->data, a local
-    assigned from one, or the `data` parameter of the write functions) is an operand of a comparison."""
-    path = os.path.join(repo or V.REPO, "muggle/c/sync/ring_buffer.c")
-    txt = open(path).read()
-    txt = re.sub(r"/\*.*?\*/", lambda m: "\n" * m.group(0).count("\n"), txt, flags=re.S)
-    txt = re.sub(r"//[^\n]*", "", txt)
-    txt = txt.replace("->", ".")
-    # crude function split: top-level '{' ... '}' blocks together with the header before them
-    depth, start, funcs = 0, 0, []
-    for i, ch in enumerate(txt):
-        if ch == "{":
-            if depth == 0:
-                start = max(txt.rfind(";", 0, i), txt.rfind("}", 0, i)) + 1
-            depth += 1
-        elif ch == "}":
-            depth -= 1
-            if depth == 0:
-                funcs.append((start, i + 1))
-    cmp_op = r"(?:==|!=|<=|>=|(?<![<>=!-])<(?![<=])|(?<![<>=!-])>(?![>=]))"
-    hits = []
-    for a, b in funcs:
-        body = txt[a:b]
-        tainted = set(re.findall(r"\b(\w+)\s*=\s*[^=;]*\.data\b", body))
-        if re.search(r"void\s*\*\s*data\s*\)", body.split("{")[0]):
-            tainted.add("data")
-        operand = r"(?:[\w\]\[.]*\.data\b" + "".join(r"|\b%s\b" % re.escape(t) for t in sorted(tainted)) + ")"
-        pat = re.compile(r"%s\s*\)*\s*%s|%s\s*(?:\([^()]*\)\s*)?\(*\s*%s" % (operand, cmp_op, cmp_op, operand))
-        line0 = txt.count("\n", 0, a)
-        for k, ln in enumerate(body.split("\n")):
-            if pat.search(ln):
-                hits.append("%d: %s" % (line0 + k + 1, ln.strip()))
-    return hits
+    """AST-based source scan (lib/props/c02_scan.py, clang JSON; an ADDITIONAL obligation, not a proof): the ring
+    must treat message values as opaque.  Returns (hits, payload read sites, payload store sites, narrow-int hits):
+    hits = every use of a payload value (blocks[i].data, what is stored into it, whatever is assigned from / returned
+    with / passed along such a value inside the file, also through the function pointer tables) other than copying,
+    returning or discarding it - truthiness tests, comparisons, ?: conditions, switch, arithmetic, casts to
+    integers, dereferences, calls of functions outside the file (memcmp, ...).  Raises c02_scan.ScanError when the
+    file cannot be analysed (the caller breaks the obligation)."""
+    try:
+        from props import c02_scan
+    except ImportError:
+        import c02_scan
+    V.gen_config_header()
+    repo = repo or V.REPO
+    return c02_scan.scan_all(os.path.join(repo, "muggle/c/sync/ring_buffer.c"),
+                             SCAN_CFLAGS + ["-I" + repo, "-I" + V.GEN_INC])
+
+
+def cap_requests():
+    """requested capacities for the rounding table: every n in 0..1025, 2^k-1, 2^k, 2^k+1 up to 2^20, refused ones
+    above 2^30, a few that need more memory than there is (alloc-failed rows are dropped)"""
+    ns = list(range(0, 1026))
+    for k in range(11, 20):
+        ns += [2 ** k - 1, 2 ** k, 2 ** k + 1]
+    ns += [2 ** 20 - 1, 2 ** 20, 3000, 5000, 70000, 100000, 300001, 777777, 1000000,
+           2 ** 26 + 1, 2 ** 30, 2 ** 30 + 1, 2 ** 31 - 1, 2 ** 31, 2 ** 31 + 1, 2 ** 32 - 1]
+    return ns
 
 
 def build_impl(ctx):
-    return V.build_vsched_driver(ID, C_DRIVER, REPO_SOURCES)
+    # virtual clock: time() / clock_gettime() / gettimeofday() of scheduled threads read the scheduler's clock
+    return V.build_vsched_driver(ID, C_DRIVER, REPO_SOURCES, extra_c=["harness/vsched/vs_clock.c"],
+                                 extra_wraps=["time", "clock_gettime", "gettimeofday"])
 
 
 def py_mode(flag):
@@ -168,7 +199,8 @@ def _discovery_cases():
     return [V.Case("disc-lockwait", ["rb 0 4 1 1", "w 2 1", "r 3:4294967293", "sched rand 1 30 0 0"]),
             V.Case("disc-singlebusy", ["rb 9 4 1 1", "w 3", "r 3:4294967293", "sched rand 2 30 0 0"]),
             V.Case("disc-once", ["rb 16 4 1 0", "w 2 1", "r 2:0 1:0", "sched rand 3 30 0 0"]),
-            V.Case("disc-modes", ["modes"])]
+            V.Case("disc-modes", ["modes"]), V.Case("disc-types", ["types"]),
+            V.Case("disc-caps", ["caps " + " ".join(map(str, cap_requests()))])]
 
 
 def gen_params(ctx):
@@ -197,10 +229,57 @@ def gen_params(ctx):
             fields.append("%s := %s" % (field, MO.get(next(iter(mos)), "MoNone")))
     if len(table) != 32:
         notes.append("(* flag -> mode table: %d of 32 rows observed *)" % len(table))
-    hits = scan_payload_comparisons()
-    for h in hits:
-        notes.append("(* payload compared in ring_buffer.c line %s *)" % h.replace("*)", "* )"))
+    # C types (driver probe) and capacity rounding (muggle_ring_buffer_init run for every request)
+    ftypes, sigs, blk, caps = [], [], None, []
+    for ln in res.get("disc-types", {}).get("lines", []):
+        w = ln.split()
+        if len(w) == 5 and w[:2] == ["F", "field"]:
+            ftypes.append((w[2], int(w[3]), int(w[4])))
+        elif len(w) == 4 and w[:2] == ["F", "sig"]:
+            sigs.append((w[2], int(w[3])))
+        elif len(w) == 5 and w[:2] == ["F", "block"]:
+            blk = (int(w[3]), int(w[4]))
+    nfail = 0
+    for ln in res.get("disc-caps", {}).get("lines", []):
+        w = ln.split()
+        if len(w) == 5 and w[:2] == ["F", "cap"]:
+            caps.append((int(w[2]), int(w[3]), int(w[4])))
+        elif len(w) == 4 and w[3] == "alloc-failed":
+            nfail += 1
+    if [f[0] for f in ftypes] != ["capacity", "cursor", "read_cursor", "flag", "write_mode", "read_mode"] or \
+            [g[0] for g in sigs] != ["read", "write", "init"] or blk is None:
+        notes.append("(* type probe incomplete: %s %s %s *)" % (ftypes, sigs, blk))
+        ftypes, sigs, blk = [], [], (-1, -1)
+    # source scans (clang AST): payload opacity, integer widths
+    try:
+        hits, nread, nstore, narrow = scan_payload_comparisons()
+        if nread < 1 or nstore < 1:
+            hits = list(hits) + ["the scan found no read / no store of a block's payload (%d / %d): it is blind" % (nread, nstore)]
+    except Exception as e:                      # a scan that cannot run breaks the obligation, never a silent pass
+        hits, nread, nstore, narrow = ["scan failed: %s" % str(e)[:300]] * 999, 0, 0, ["scan failed"] * 999
+    for h in hits[:40]:
+        notes.append("(* payload used in ring_buffer.c: %s *)" % h.replace("*)", "* )").replace("(*", "( *"))
+    for h in narrow[:40]:
+        notes.append("(* narrow integer in ring_buffer.c: %s *)" % h.replace("*)", "* )").replace("(*", "( *"))
+    # translator tie: the integer content of the functions of ring_buffer.c, sliced out of the clang AST of this run
+    try:
+        try:
+            from props import c02_scan, c02_slice
+        except ImportError:
+            import c02_scan
+            import c02_slice
+        tie = c02_slice.gallina(c02_scan.load_tu(os.path.join(V.REPO, "muggle/c/sync/ring_buffer.c"),
+                                                 SCAN_CFLAGS + ["-I" + V.REPO, "-I" + V.GEN_INC]))
+    except Exception as e:                      # a translator failure breaks the obligations, never a silent skip
+        msg = str(e)[:400].replace("*)", "* )").replace("(*", "( *")
+        tie = ("(* lib/props/c02_slice.py could not slice ring_buffer.c: %s *)\n" % msg +
+               "".join("Definition %s (m cap cur rc wpos idx : Z) : Z * Z * Z * Z * Z * Z := (99, 0, 0, 0, 0, 0).\n"
+                       "Definition %s_len : Z := 0.\n" % (g, g) for g in ("gen_write_fn", "gen_wake_fn", "gen_read_fn")) +
+               "Definition gen_write_entry (wm rm : Z) : list (Z * Z) := [].\n"
+               "Definition gen_read_entry (cap rm idx : Z) : Z * Z * Z := (99, 0, 0).\n"
+               "#[global] Hint Unfold gen_write_fn gen_wake_fn gen_read_fn gen_write_entry gen_read_entry : c02tie.\n")
     rows = "; ".join("(%d, %d, %d, %d)" % (f, rc, wm, rm) for f, rc, wm, rm in table)
+    caprows = ";\n   ".join("; ".join("(%d, %d, %d)" % r for r in caps[i:i + 8]) for i in range(0, len(caps), 8))
     txt = ("(* generated by lib/props/c02.py from the memory orders observed at each atomic site of\n"
            "   ring_buffer.c / spinlock.c and from the flag -> mode table computed by\n"
            "   muggle_ring_buffer_init on this run; do not edit *)\n"
@@ -208,65 +287,166 @@ def gen_params(ctx):
            "Definition code_params : params :=\n  {| " + ";\n     ".join(fields) + " |}.\n"
            "(* (flag, init return value, write_mode, read_mode); -1 = not set *)\n"
            "Definition code_mode_table : list (Z * Z * Z * Z) :=\n  [" + rows + "].\n"
-           "(* source scan of ring_buffer.c: number of lines in which a payload value (x->data, a local assigned from\n"
-           "   it, the data argument) is an operand of a comparison; the ring must treat messages as opaque *)\n"
-           "Definition code_payload_comparisons : nat := %d.\n" % len(hits))
+           "(* AST scan of ring_buffer.c (lib/props/c02_scan.py): number of uses of a payload value (blocks[i].data, what is\n"
+           "   stored into it, values copied from / returned with / passed along it inside the file) other than copying,\n"
+           "   returning or discarding it; the ring must treat messages as opaque.  %d payload reads, %d payload stores seen *)\n"
+           "Definition code_payload_comparisons : nat := %d.\n" % (nread, nstore, len(hits)) +
+           "(* (sizeof, signed) of capacity, cursor, read_cursor, flag, write_mode, read_mode as compiled *)\n"
+           "Definition code_field_types : list (Z * Z) := [" + "; ".join("(%d, %d)" % (a, b) for _, a, b in ftypes) + "].\n"
+           "(* muggle_ring_buffer_read / _write / _init have exactly the prototypes the model transcribes (1 = yes) *)\n"
+           "Definition code_sigs : list Z := [" + "; ".join(str(v) for _, v in sigs) + "].\n"
+           "(* (offset, size) of the payload pointer inside a block *)\n"
+           "Definition code_block_ptr : Z * Z := (%d, %d).\n" % blk +
+           "(* integer variables / conversions narrower than 32 bits in the functions of ring_buffer.c (AST scan) *)\n"
+           "Definition code_narrow_ints : nat := %d.\n" % len(narrow) +
+           "(* (requested capacity, return code of muggle_ring_buffer_init, capacity field or -1), %d requests could not be\n"
+           "   allocated and are left out *)\n" % nfail +
+           "Definition code_cap_table : list (Z * Z * Z) :=\n  [" + caprows + "].\n"
+           "\n(* --- integer content of the functions of muggle/c/sync/ring_buffer.c, sliced out of the C text of this run\n"
+           "   (lib/props/c02_slice.py): inputs cap = r->capacity, cur = r->cursor read plainly, rc = r->read_cursor,\n"
+           "   wpos = value of the atomic load of r->cursor, idx = the index argument; result (kind, val, slot_w, cur_st,\n"
+           "   rc_st, wake), see C02/ProofsTie.v --- *)\n"
+           "From MV Require Import Lib.Leaf.\n" + tie)
     return txt
 
 
 # ---------------------------------------------------------------------------
 # generator
 
-def _scenario(rng, throttle, flag=None):
+CAPS = [1, 2, 2, 2, 2, 4, 4, 4, 4, 4, 4, 8, 8, 8, 8, 16, 16, 32, 64]
+
+
+def rd_start(pre, idx0, cap):
+    """logical position (in the write order) of the message the first index idx0 names: the largest position
+    <= pre congruent to idx0 modulo the capacity; negative = that ring position has never been written"""
+    return pre - ((pre - idx0) % cap)
+
+
+def _values(rng, lines, nmsg, cap):
+    # adversarial message values (about half of the scenarios): NULL, (void*)-1, ANY small integer 1..255 (in
+    # particular ring positions / cursor values / 1 / capacity / 0xFF), the address of the ring's own blocks and of
+    # the ring, repeated identical values
+    if nmsg <= 0 or not rng.chance(1, 2):
+        return
+    pool = [V_NULL, V_NULL, V_MINUS1, V_MINUS1, v_int(1), v_int(rng.range(1, max(1, cap))), v_int(min(255, cap)),
+            v_int(rng.range(1, 255)), v_int(rng.range(1, 255)), v_int(255), v_int(254), v_int(rng.choice([2, 3, 7, 15, 16, 127, 128])),
+            v_block(rng.below(cap)), v_block(0), V_RING]
+    vals = {}
+    for _ in range(rng.range(1, max(1, min(6, nmsg)))):
+        vals[rng.below(nmsg)] = rng.choice(pool)
+    if rng.chance(1, 3) and nmsg >= 2:          # the same value several times in a row
+        c0, a0 = rng.choice(pool), rng.below(nmsg - 1)
+        vals[a0] = c0
+        vals[a0 + 1] = c0
+        if nmsg >= 3 and rng.chance(1, 2):
+            vals[min(nmsg - 1, a0 + 2)] = c0
+    if rng.chance(1, 6):                         # every message is a special value
+        for i in range(nmsg):
+            vals.setdefault(i, rng.choice(pool))
+    if rng.chance(1, 12):                        # every message carries the SAME special value
+        c0 = rng.choice(pool)
+        for i in range(nmsg):
+            vals[i] = c0
+    lines.append("v " + " ".join("%d:%d" % (i, vals[i]) for i in sorted(vals)))
+
+
+def _scenario(rng, throttle, flag=None, cap=None):
     if flag is None:
         # mode first (uniform over the 8 accepted combinations, the rejected one 1 in 16), then any flag value
         # that selects it (includes the deprecated 0x04 bit and redundant bits)
         target = None if rng.chance(1, 16) else (rng.below(2), rng.below(4))
         flag = rng.choice([f for f in range(32) if py_mode(f) == target])
-    cap = rng.choice([2, 2, 4, 4, 4, 8, 8])
-    capreq = rng.range(cap // 2 + 1, cap) if cap > 2 else 2
+    if cap is None:
+        cap = rng.choice(CAPS)
+    capreq = rng.range(cap // 2 + 1, cap) if cap > 2 else cap
     mode = py_mode(flag)
     if mode is None:
         return ["rb %d %d %d 0" % (flag, capreq, throttle), "w 1", "r 1:0"]
     wm, rm = mode
     nw = 1 if wm == 1 else rng.range(1, 3)
     nr = 1 if (flag & F_SR) else rng.range(1, 3)
-    wc = [rng.range(1, 4) for _ in range(nw)]
+    # messages per writer: a few; for the larger rings sometimes enough to wrap the ring
+    hi = 4 if cap <= 8 or not rng.chance(1, 2) else min(40, cap)
+    wc = [rng.range(1, hi) for _ in range(nw)]
     total = sum(wc)
-    base = rng.choice([TWO32 - 3, TWO32 - 3, TWO32 - 3, TWO32 - 1, 0, TWO32 - 2, 5])
-    pre = base % cap
-    if rm == 3:
-        # read-once: the index is ignored; the pre-written messages are delivered too
+    # pre messages are in the ring when the threads start (cursor = pre < capacity); base is the 32-bit index that
+    # names the cursor position: near the 32-bit wrap, at it, or small
+    pre = 0 if cap == 1 else rng.choice([rng.below(cap), rng.below(cap), rng.below(min(cap, 4)), cap - 1])
+    wraps = TWO32 // cap
+    kbase = rng.choice([wraps - 1, wraps - 1, wraps - 1, 0, wraps - 1 if pre >= 3 else 0, rng.below(wraps), 1])
+    base = (kbase * cap + pre) % TWO32
+    if rm == 3 and cap == 1:
+        # a ring of one block can never be read, and the read-once throttle (delivered + capacity) never lets a
+        # writer begin: zero-read readers, throttle off (only model / implementation agreement is checked)
+        throttle = 0
+        quotas = [0] * nr
+        idx = [rng.choice([0, TWO32 - 1, 5]) for _ in range(nr)]
+    elif rm == 3:
+        # read-once: the index is ignored; the pre-written messages are delivered too; the readers may stop
+        # up to capacity-1 messages before the end (the throttle still lets the writers finish)
         left = total + pre
+        if cap > 1 and throttle and rng.chance(1, 4):
+            left -= rng.range(0, min(left, cap - 1))
         quotas = []
         for i in range(nr):
             q = left if i == nr - 1 else rng.range(0, left)
             quotas.append(q)
             left -= q
         quotas = rng.shuffle(quotas)
-        idx = [base for _ in range(nr)]
+        idx = [rng.choice([base, base, (base + rng.below(cap)) % TWO32, rng.below(TWO32)]) for _ in range(nr)]
+    elif cap == 1:
+        # a ring of one block can never be read (cursor == position always): only zero-read readers
+        quotas = [0] * nr
+        idx = [rng.choice([0, TWO32 - 1, 5]) for _ in range(nr)]
     else:
-        quotas = [total] * nr
-        idx = [(base - cap * rng.range(0, 2)) % TWO32 for _ in range(nr)]
+        quotas, idx = [], []
+        kind = rng.below(4)         # 0: all at the cursor; 1: all late at one older message; 2,3: mixed
+        common = rng.range(0, pre)
+        for i in range(nr):
+            st = pre if kind == 0 else common if kind == 1 else rng.choice([pre, rng.range(0, pre), 0, max(0, pre - 1)])
+            full = (pre - st) + total
+            q = full if rng.chance(1, 2) else rng.range(0, full)      # stops early (possibly reads nothing)
+            quotas.append(q)
+            idx.append((base - (pre - st) - cap * rng.choice([0, 0, 1, 2])) % TWO32)
     lines = ["rb %d %d %d %d" % (flag, capreq, throttle, pre), "w " + " ".join(map(str, wc)),
              "r " + " ".join("%d:%d" % (q, i) for q, i in zip(quotas, idx))]
-    # adversarial message values (about half of the scenarios): NULL, (void*)-1, small integers equal to ring
-    # positions / cursor values / 1, the address of the ring's own blocks and of the ring, repeated identical values
-    if rng.chance(1, 2):
-        nmsg = total + pre
-        pool = [V_NULL, V_MINUS1, V_MINUS1, v_int(1), v_int(rng.range(1, cap)), v_int(cap), v_block(rng.below(cap)),
-                v_block(0), V_RING]
-        vals = {}
-        for _ in range(rng.range(1, max(1, min(4, nmsg)))):
-            vals[rng.below(nmsg)] = rng.choice(pool)
-        if rng.chance(1, 3) and nmsg >= 2:          # the same value several times in a row
-            c0, a0 = rng.choice(pool), rng.below(nmsg - 1)
-            vals[a0] = c0
-            vals[a0 + 1] = c0
-        if rng.chance(1, 6):                         # every message is a special value
-            for i in range(nmsg):
-                vals.setdefault(i, rng.choice(pool))
-        lines.append("v " + " ".join("%d:%d" % (i, vals[i]) for i in sorted(vals)))
+    _values(rng, lines, total + pre, cap)
+    return lines
+
+
+def _idle_scenario(rng, flag=None, heavy=False):
+    """The writer stays QUIET for virtual seconds (virtual clock of harness/vsched) and then writes fewer messages
+    than there are caught-up readers: no reader may stay blocked once its message exists.  A cheap variant (clock
+    jumps while everybody spins; a few hundred steps) and a heavy one (no jumps, 20 us per step, up to a million
+    steps: long enough for code that looks at the clock only every 2^16 spins and parks after seconds)."""
+    if flag is None:
+        flag = rng.choice([0, 0, 1, 8, 8, 9, 9, 8, 2, 3, 10, 11, 16, 17, 0 | 4, 8 | 4])
+    wm, rm = py_mode(flag)
+    cap = rng.choice([2, 4, 4, 8, 16])
+    nr = 1 if (flag & F_SR) else (rng.range(2, 3) if not heavy else rng.choice([2, 3]))
+    pre = rng.below(min(cap, 3))
+    burst = 0 if heavy else rng.below(min(3, cap - pre))      # messages written before the quiet period
+    after = 1 if (heavy or nr <= 2) else rng.range(1, nr - 1)  # fewer than there are readers
+    if rm == 3:
+        after = max(1, nr - 1) if not heavy else 1
+    total = burst + after
+    wraps = TWO32 // cap
+    base = ((wraps - 1) * cap + pre) % TWO32 if rng.chance(1, 2) else pre
+    if rm == 3:
+        quotas = [0] * nr
+        for k in range(total + pre):
+            quotas[k % nr] += 1
+    else:
+        quotas = [total] * nr
+    lines = ["rb %d %d 1 %d" % (flag, cap, pre), "w %d" % total,
+             "r " + " ".join("%d:%d" % (q, base) for q in quotas)]
+    if heavy:
+        lines += ["clock 20000 0", "q 0:0:%d" % (13000 if nr == 2 else 21000), "budget 3000000"]
+    else:
+        qs = ["0:%d:%d" % (burst, rng.choice([2500, 5000, 60000]))]
+        if after >= 2 and rng.chance(1, 2):
+            qs.append("0:%d:%d" % (burst + 1, rng.choice([2500, 7000])))
+        lines += ["clock %d %d" % (rng.choice([1000, 100000]), rng.choice([250000000, 1000000000])), "q " + " ".join(qs)]
     return lines
 
 
@@ -286,7 +466,8 @@ def _rand_sched(rng, scen, sticks=(20, 50, 80)):
 
 
 def corpus_cases(ctx):
-    cs = [V.Case("corpus-modes", ["modes"])]
+    cs = [V.Case("corpus-modes", ["modes"]), V.Case("corpus-types", ["types"]),
+          V.Case("corpus-caps", ["caps " + " ".join(map(str, cap_requests()))])]
     # every accepted flag combination once with a fixed schedule seed, and the rejected ones
     for flag in range(32):
         cs.append(_mk("corpus-flag-%d" % flag, _scenario(V.Rng(1000 + flag), 1, flag), "rand %d 50 0 0" % (flag + 1)))
@@ -314,6 +495,22 @@ def corpus_cases(ctx):
                                                 "v 1:-3 2:-2 3:-11 4:-1001 5:-3"], "rand %d 40 0 0" % (300 + k)))
     cs.append(_mk("corpus-values-repeat", ["rb 0 2 1 1", "w 3 2", "r 5:4294967293", "v 0:-3 1:-3 2:-3 3:-12 4:-12 5:-2000"],
                   "rand 311 30 0 0 30 0"))
+    # capacities 1 (never readable: zero-read readers), 16, 32, 64 with enough messages to wrap the ring
+    cs.append(_mk("corpus-cap1", ["rb 0 1 1 0", "w 3 2", "r 0:0 0:4294967295"], "rand 401 40 0 0"))
+    cs.append(_mk("corpus-cap1-once", ["rb 16 1 0 0", "w 2", "r 0:0"], "rand 402 40 0 0"))
+    cs.append(_mk("corpus-cap16-wrap", ["rb 0 9 1 5", "w 12 11", "r 23:4294967285 18:4294967285"], "rand 403 50 0 0 30 0"))
+    cs.append(_mk("corpus-cap32-busy", ["rb 8 17 1 31", "w 20 20", "r 40:4294967295 71:4294967264 9:4294967290"], "rand 404 50 0 0"))
+    cs.append(_mk("corpus-cap64-once", ["rb 16 33 1 3", "w 35 35", "r 30:0 23:7 20:9"], "rand 405 50 0 0 30 20"))
+    cs.append(_mk("corpus-cap64-single", ["rb 11 64 1 63", "w 70", "r 133:4294967232"], "rand 406 60 0 0"))
+    # late joiners (older, still valid first index; different residues; across the 32-bit wrap), early stop
+    cs.append(_mk("corpus-late-wait", ["rb 0 8 1 5", "w 4 4", "r 10:4294967291 8:4294967293 3:4294967288 0:4294967292"], "rand 411 40 0 0 30 20"))
+    cs.append(_mk("corpus-late-busy", ["rb 8 4 1 3", "w 3 3", "r 9:0 6:3 2:2"], "rand 412 40 0 0"))
+    cs.append(_mk("corpus-late-single", ["rb 2 8 1 6", "w 5", "r 7:4294967292"], "rand 413 40 0 0 60 0"))
+    cs.append(_mk("corpus-late-values", ["rb 9 8 1 4", "w 6", "r 10:4294967288 8:4294967290", "v 0:-2 1:-3 2:-265 3:-11 5:-2 9:-137"], "rand 414 40 0 0"))
+    cs.append(_mk("corpus-unwritten-position", ["rb 0 8 1 2", "w 2", "r 1:5"], "rand 415 40 0 0"))
+    # the writer stays quiet for virtual seconds, then writes fewer messages than there are readers (all reader modes)
+    for k, fl in enumerate([0, 1, 8, 9, 2, 10, 16, 17]):
+        cs.append(_mk("corpus-idle-%d" % fl, _idle_scenario(V.Rng(2000 + fl), fl), "rand %d 50 0 0" % (420 + k)))
     corp = os.path.join(V.VERIF, "corpus", ID)
     if os.path.isdir(corp):
         for f in sorted(os.listdir(corp)):
@@ -332,15 +529,33 @@ def generate(rng, tier):
     for i in range(nneg):
         scen = _scenario(rng, 0)
         cases.append(_mk("neg-%d" % i, scen, _rand_sched(rng, scen)))
+    for i in range(250 if tier == "quick" else 3000):
+        scen = _idle_scenario(rng)
+        cases.append(_mk("idle-%d" % i, scen, _rand_sched(rng, scen)))
+    if tier != "quick":
+        # long idle periods (up to a million scheduling steps of 20 us): ~5 s each on the model side, thorough tier only
+        for i, fl in enumerate([8, 9, 0, 16]):
+            scen = _idle_scenario(rng, fl, heavy=True)
+            cases.append(_mk("idle-heavy-%d" % i, scen, "rand %d 50 0 0" % rng.below(1 << 30)))
     return cases
 
 
 def search(rng, diverging, tier):
+    """extra inputs when an obligation or the correspondence broke: the ordinary families with more schedule
+    densities, the idle families (quiet writer, virtual clock) and - last, they are long - the heavy idle cases in
+    which busy readers spin through up to a million steps of 20 us each, so that code which looks at the clock
+    only once in a while (every 2^16 spins) and reacts after seconds reaches that branch"""
     out = []
-    for i in range(4000):
+    for i in range(3500):
         flag = rng.choice([0, 0, 0, 8, 16, 16, 1, 9, 17, 2, 10])
         scen = _scenario(rng, 1, flag)
         out.append(_mk("search-%d" % i, scen, _rand_sched(rng, scen, (10, 30, 50, 80))))
+    for i in range(600):
+        scen = _idle_scenario(rng)
+        out.append(_mk("search-idle-%d" % i, scen, _rand_sched(rng, scen, (10, 30, 50, 80))))
+    for i, fl in enumerate([8, 9, 8, 0, 16, 10, 2]):
+        scen = _idle_scenario(rng, fl, heavy=True)
+        out.append(_mk("search-idle-heavy-%d" % i, scen, "rand %d 50 0 0" % rng.below(1 << 30)))
     return out
 
 
@@ -438,6 +653,10 @@ def _parse_vals(case):
 def monitor(case, lines):
     if any(ln.strip() == "modes" for ln in case.lines):
         return _mon_modes(lines)
+    if any(ln.strip() == "types" for ln in case.lines):
+        return _mon_types(lines)
+    if any(ln.startswith("caps ") for ln in case.lines):
+        return _mon_caps(case, lines)
     found = [ln for ln in case.lines if ln.startswith("FOUND")]
     if found:
         # replay of a model-level history (weakened memory order): it reproduces as long as the
@@ -462,6 +681,9 @@ def monitor(case, lines):
     want = "F cap=%d wmode=%d rmode=%d" % (cap, mode[0], mode[1])
     if len(f) < 2 or f[1] != want:
         return "mode/capacity: expected %r, got %r" % (want, f[1] if len(f) > 1 else None)
+    if mode[1] != 3 and any(rd_start(pre, i0, cap) < 0 for _, i0 in rq):
+        # a first index that names a never-written ring position: outside the property (the harness refuses it)
+        return None if len(f) > 2 and f[2] == "F badcase" else "harness must refuse a never-written start position, got %r" % (f[2:3],)
     return _mon_trace(lines, cap, mode, throttle, pre, wc, rq, _parse_vals(case))
 
 
@@ -479,6 +701,45 @@ def _mon_modes(lines):
     return None
 
 
+def _mon_types(lines):
+    """independent statement of the documented types: the capacity is a (signed 32-bit) muggle_atomic_int, the two
+    cursors are 32-bit futex words, the public index is a uint32_t"""
+    want = {"capacity": (4, 1), "cursor": (4, 0), "read_cursor": (4, 0)}
+    got = {}
+    for ln in lines:
+        w = ln.split()
+        if len(w) == 5 and w[:2] == ["F", "field"]:
+            got[w[2]] = (int(w[3]), int(w[4]))
+        elif len(w) == 4 and w[:2] == ["F", "sig"] and w[3] != "1":
+            return "prototype of muggle_ring_buffer_%s is not the documented one" % w[2]
+    for k, v in want.items():
+        if got.get(k) != v:
+            return "field %s: (sizeof, signed) = %s, expected %s" % (k, got.get(k), v)
+    return None
+
+
+def _mon_caps(case, lines):
+    """capacity rounding: the smallest power of two >= the request, requests 0 and > 2^30 refused"""
+    seen = 0
+    for ln in lines:
+        w = ln.split()
+        if len(w) < 4 or w[:2] != ["F", "cap"]:
+            continue
+        seen += 1
+        n = int(w[2])
+        if w[3] == "alloc-failed":
+            if n <= 2 ** 20:
+                return "capacity %d: allocation failed" % n
+            continue
+        rc, cp = int(w[3]), int(w[4])
+        if n == 0 or n > 2 ** 30:
+            if rc != 6:
+                return "capacity request %d must be refused with MUGGLE_ERR_INVALID_PARAM, got rc=%d capacity=%d" % (n, rc, cp)
+        elif rc != 0 or cp != next_pow2(n):
+            return "capacity request %d: rc=%d capacity=%d, expected %d" % (n, rc, cp, next_pow2(n))
+    return None if seen else "no output"
+
+
 def _mon_trace(lines, cap, mode, throttle, pre, wc, rq, vals=None):
     vals = vals or {}
     val = lambda mid: vals.get(mid, mid)      # the pointer value message mid carries (own object = its id)
@@ -487,6 +748,9 @@ def _mon_trace(lines, cap, mode, throttle, pre, wc, rq, vals=None):
     log = list(range(pre))              # publication-order log (message ids)
     pending = {}                        # writer tid -> id put but not yet published
     got = {t: [] for t in range(nw, nw + nr)}
+    # logical start position of each reader (its first index names a ring position); quota = reads it will do
+    start = {t: rd_start(pre, rq[i][1], cap) for i, t in enumerate(range(nw, nw + nr))}
+    quota = {t: rq[i][0] for i, t in enumerate(range(nw, nw + nr))}
     takes = []                          # read-once: (reader, k, len(log) at the unlock)
     unlocks = {t: 0 for t in range(nw, nw + nr)}
     begun = pre
@@ -503,9 +767,9 @@ def _mon_trace(lines, cap, mode, throttle, pre, wc, rq, vals=None):
             if not once:
                 for i, t in enumerate(range(nw, nw + nr)):
                     k = len(got[t])
-                    if k < rq[i][0] and pre + k < len(log):
+                    if k < rq[i][0] and start[t] + k < len(log):
                         why += "; reader %d never returns from read #%d although the %d-th message (id %d, value %d = %s) is published" % (
-                            t, k, pre + k, log[pre + k], val(log[pre + k]), val_kind(val(log[pre + k])))
+                            t, k, start[t] + k, log[start[t] + k], val(log[start[t] + k]), val_kind(val(log[start[t] + k])))
                         break
             bad = bad or why
             break
@@ -531,8 +795,10 @@ def _mon_trace(lines, cap, mode, throttle, pre, wc, rq, vals=None):
                 if once:
                     lo = sum(len(v) for v in got.values())
                 else:
-                    lo = pre + min(len(v) for v in got.values())
-                if not begun < lo + cap:
+                    # the writers must stay less than a capacity ahead of every reader that still reads
+                    act = [start[u] + len(got[u]) for u in got if len(got[u]) < quota[u]]
+                    lo = min(act) if act else None
+                if lo is not None and not begun < lo + cap:
                     precond = False
             elif w[2] == "got":
                 mid = int(w[3])
@@ -540,7 +806,7 @@ def _mon_trace(lines, cap, mode, throttle, pre, wc, rq, vals=None):
                 got[t].append(mid)
                 last_got[t] = mid
                 if not once and precond and bad is None:
-                    pos = pre + k
+                    pos = start[t] + k
                     if pos >= len(log):
                         bad = "reader %d returned from read #%d (value %d = %s) before the %d-th message was published" % (t, k, mid, val_kind(mid) if mid != -1 else "no message value", pos)
                     elif mid != val(log[pos]):
@@ -591,7 +857,8 @@ def _mon_trace(lines, cap, mode, throttle, pre, wc, rq, vals=None):
 
 def nontrivial_key(case, lines):
     txt = "\n".join(lines)
-    if " tas wlock acq 1 " in txt or " fwait " in txt or " plain thr " in txt or "F mode" in txt:
+    if " tas wlock acq 1 " in txt or " fwait " in txt or " plain thr " in txt or "F mode" in txt or \
+            "F field" in txt or "F cap " in txt:
         return hash(txt)
     if re.search(r"F init=[1-9]", txt):
         return hash(case.lines[0])
@@ -604,7 +871,8 @@ def nontrivial_key(case, lines):
 def tally(dist, case, lines):
     rb, wc, rq = _parse_case(case)
     if rb is None:
-        dist["modes-table"] = dist.get("modes-table", 0) + 1
+        k = "modes-table" if any(ln.strip() == "modes" for ln in case.lines) else "types-or-capacity-table"
+        dist[k] = dist.get(k, 0) + 1
         return
     m = py_mode(rb[0])
     k = "rejected" if m is None else "w%s-r%s" % (("lock", "single")[m[0]], ("wait", "singlewait", "busy", "once")[m[1]])
@@ -630,22 +898,39 @@ def tally(dist, case, lines):
             dist["cases-with-repeated-value"] = dist.get("cases-with-repeated-value", 0) + 1
     if rq and any(i + q >= TWO32 for q, i in rq if q > 0):
         dist["index-wrap"] = dist.get("index-wrap", 0) + 1
+    if m is not None and m[1] != 3 and rq and wc:
+        cap = next_pow2(max(1, rb[1]))
+        sts = [rd_start(rb[3], i0, cap) for _, i0 in rq]
+        if any(0 <= st < rb[3] for st in sts):
+            dist["late-joiner"] = dist.get("late-joiner", 0) + 1
+        if len(set(st % cap for st in sts)) > 1:
+            dist["readers-at-different-residues"] = dist.get("readers-at-different-residues", 0) + 1
+        if any(0 <= st and q < (rb[3] - st) + sum(wc) for (q, _), st in zip(rq, sts)):
+            dist["reader-stops-early"] = dist.get("reader-stops-early", 0) + 1
+    if any(ln.startswith("clock ") for ln in case.lines):
+        dist["idle-writer-virtual-clock"] = dist.get("idle-writer-virtual-clock", 0) + 1
 
 
 MANIFEST = {
     "level_text": ("Coq theorems over an executable interleaving model of ring_buffer.c (write spinlock or single "
                    "writer, cursor as futex word, plain slots/payloads/read_cursor under release/acquire views, read "
                    "mutex; wait / single-wait / busy-loop / read-once readers) with an arbitrary number of writers and "
-                   "readers, any power-of-two capacity and every schedule: under the documented no-lapping precondition "
+                   "readers, any power-of-two capacity, any first index of every reader (late joiners, different residues, "
+                   "readers that stop early) and every schedule: under the documented no-lapping precondition "
                    "read(i) returns the i-th published message and only after it exists, all readers agree, the 32-bit "
                    "index wrap is harmless, read-once takes in read-mutex order are a prefix of the publication order with "
                    "strictly increasing per-reader positions and every position owned by one reader, every slot / payload / "
                    "read_cursor read is covered by the reader's view in all modes (memory orders re-extracted from the code "
-                   "each run), and the harness throttle implies the precondition.  Tie: the real code runs under a deterministic scheduler (hooked atomics, emulated "
-                   "futex/mutex) and every trace is replayed on the extracted model; an independent monitor checks "
-                   "publication order, per-reader sequences, read-once prefix and payloads on the traces."),
-    "design_ref": "DESIGN.md sections 4.2, 4.3, 6/C02, Appendix A.6, B",
-    "level_note": ("Trusted: Coq kernel, extraction, vsched scheduler and its futex/mutex semantics, SC+views memory "
-                   "model as stand-in for C11 (DRF-SC assumed); weak-memory effects exist only in the model."),
-    "technique": "Coq invariant proofs over all interleavings (N threads, any 2^k capacity) + deterministic-scheduler trace acceptance by the extracted model",
+                   "each run), the harness throttle implies the precondition, init rounds every request 1..2^30 to the "
+                   "smallest power of two and refuses the rest.  Ties: (1) the real code runs under a deterministic scheduler "
+                   "(hooked atomics, emulated futex/mutex, virtual clock) and every trace is replayed on the extracted model; "
+                   "an independent monitor checks publication order, per-reader sequences, read-once prefix, payloads and "
+                   "that no reader stays blocked once its message exists; (2) the integer content of the write / wake / read "
+                   "functions is re-translated from the C text on every run and proved equal to the model's step functions "
+                   "for every capacity up to 2^30; (3) flag -> mode table, capacity table, field types, prototypes re-extracted "
+                   "and compared; AST scans for payload opacity and integer widths."),
+    "design_ref": "DESIGN.md sections 4.2, 4.3, 4.4, 6/C02, Appendix A.6, B",
+    "level_note": ("Trusted: Coq kernel, extraction, vsched scheduler and its futex/mutex/clock semantics, SC+views memory "
+                   "model as stand-in for C11 (DRF-SC assumed); weak-memory effects exist only in the model; clang AST, slicer."),
+    "technique": "Coq invariant proofs over all interleavings (N threads, any 2^k capacity) + deterministic-scheduler trace acceptance by the extracted model + translator tie for the index arithmetic",
 }
